@@ -12,9 +12,9 @@ NS = 6
 RULE = ("case = one operation history (1..~600 ops) on six handle slots of Array/Stack/Queue of int, String or a counted "
         "element type with a heap payload: new/copy/assign/drop handles, append, insert at every position, self-referential "
         "insert/append (a << a[j], a.insert(k, a[j]), a.insert(k, b[j]) with b sharing the block, a.append(a), a.copy(a)), "
-        "remove(i,n), removeOne, removeLast, resize up/down, reserve, clear, sort (both overloads), slice, clone, dup, concat, "
-        "reversed, filter, removeIf, copy, element writes, push/pop/popget/top, put/get; after every op the length, elements "
-        "and rc() of all six handles (and the live-object counter) are compared; non-trivial = distinct history with a "
+        "remove(i,n), removeOne, removeLast, resize up/down, reserve, clear, sort (both overloads), sortBy, pointer variants Array(p,n)/copy(p,n)/append(p,n), operator-comma, range-for / foreach / Enumerator / slice_, slice, clone, dup, concat, "
+        "reversed, filter, removeIf, copy, element writes, push/pop/popget/top, put/get; after every op the length, elements, "
+        "rc() and cap() of all six handles (and the live-object counter) are compared; non-trivial = distinct history with a "
         "mid-array insert/remove and at least one capacity growth")
 TRUSTED = ["harness/c01.cpp Counted element type (global live counter, heap payload, un-cleared pointer so that destroying a "
            "stale bitwise copy is a double free under ASan)",
@@ -32,27 +32,36 @@ LEVEL_TEXT = ("Proved in Lean 4 about the executable model the driver runs (AslM
               "capacity and in-range argument each member (reserve on both allocation paths, resize, insert incl. an element of the "
               "same array, remove, removeIf, append incl. append(a), copy) touches only constructed cells inside the block, "
               "constructs and destroys each element exactly once (explicit live counter) and computes the list function of the "
-              "reference semantics; (2) array_refines_seq_partial - for EVERY finite history of the 36 protocol operations through six "
-              "handles and clones in which no operation increases the capacity of a block whose rc > 1, every call result and every "
-              "handle's (elements, rc()) equal the reference semantics 'handles -> shared sequences' and no access leaves live storage "
-              "(simulation with block-id renaming, rc = number of handles, no dangling handle); quicksort_total / quicksort_sorted_perm - the "
-              "transcribed Hoare quicksort of sort() never indexes outside its sequence, terminates (every irreflexive <) and returns the "
-              "sorted permutation (every strict total order), so the refinement needs no hypothesis about sort and the value of sort() "
-              "in the reference semantics is the sorted permutation; clone_independent, stack_lifo, queue_fifo in the reference semantics; "
-              "(3) lifecycle - in every such "
-              "reachable state live objects = total length of live blocks, and with the last handle gone no block and no object "
-              "remains; (4) array_full_counterexample - without the hypothesis the statement is false (a=[]; b=a; a<<0<<1<<2<<3). "
-              "The model is tied to the current source on every run by the correspondence check (real Array/Stack/Queue of int, String "
-              "and a counted heap-payload type under ASan/LSan, all six handles compared after every operation) and an independent "
-              "python reference.")
-LEVEL_NOTE = ("Partial: the refinement is stated under the decidable hypothesis AllSafe = 'no operation increases the capacity of a "
-              "block whose rc > 1' (known finding shared-growth; harness and model skip exactly those operations). "
-              "Temporaries' rc++/rc-- pairs inside clone()/concat() are collapsed in the "
-              "model. Trusted: Lean kernel, harness, generator; malloc/realloc/memmove as allocate-copy-release and bitwise relocation; "
-              "the element types are trivially relocatable. The growth policy (3, 2s, max(2s,m)) is transcribed in the model and used "
-              "for the skip decisions: a harmless change of it is reported as VIOLATION ... no-failing-input-found. New cells of "
-              "Array<int> after resize are unspecified in C++; the harness writes them before reading. ASL_HAVE_MOVE is off in "
-              "this build: the (leaking) move assignment Array::operator=(Array&&) is not compiled and not covered.")
+              "reference semantics; (2) array_refines_every_run - for EVERY finite history of the 41 protocol operations as the driver "
+              "runs it (an operation that would increase the capacity of a block whose rc > 1 is left out, by the same decidable guard "
+              "in harness and model), with no hypothesis on the history, every call result and every handle's (elements, rc()) equal "
+              "the reference semantics 'handles -> shared sequences' and no access leaves live storage (simulation with block-id "
+              "renaming, rc = number of handles, no dangling handle); array_refines_seq_partial - the same for the unguarded run under "
+              "the hypothesis that no such operation occurs; quicksort_total / quicksort_sorted_perm / driver_orders_strict_total / "
+              "sort_spec - the transcribed Hoare quicksort never indexes outside its sequence, terminates, and sort()/sort(desc) "
+              "return the sorted permutation for int, the counted type and String; (3) lifecycle - in every state the driver reaches "
+              "live objects = total length of live blocks, rc = number of handles >= 1, and with the last handle gone no block and no "
+              "object remains; clone_independent_history / clone_independent_model - a clone shows the cloned elements after ANY later "
+              "history that does not write through the clone's own handle; stack_lifo, queue_fifo; (4) array_full_counterexample - "
+              "without the guard the statement is false (a=[]; b=a; a<<0<<1<<2<<3). The model is tied to the current source on every "
+              "run by the correspondence check (real Array/Stack/Queue of int, String and a counted heap-payload type under ASan/LSan; "
+              "all six handles' elements, rc() and cap() compared after every operation) and an independent python reference.")
+LEVEL_NOTE = ("Known finding shared-growth: operations that would increase the capacity of a block whose rc > 1 are excluded (left out "
+              "by harness and model; the theorems are about exactly those runs). Not covered by model or harness: converting "
+              "constructor / operator=(Array<K>), operator=(Var), initializer-list constructor/assignment/append, map / map_ / with, "
+              "operator< of arrays, join, deprecated destroy()/ptr conversions, shuffle; copy(p,n)/append(p,n) only with p outside the "
+              "array. sortBy: in bounds, terminating, permutation proved; sortedness only where the key order is strict total on the "
+              "elements (int, counted), String keys (length) with ties are compared by K only. sort is modelled on the element sequence "
+              "(reads/assignments), not on cells: the pivot copy and the swap temporaries of quicksort never touch the model's live "
+              "counter, so constructed-once/destroyed-once for those temporaries rests on the harness counter and LSan (K) only; the "
+              "same holds for the rc++/rc-- pairs of temporaries inside clone()/concat(), which the model collapses. The history "
+              "theorems are over six simultaneously live user handles (NS = 6, plus operation temporaries). Trusted: Lean kernel, "
+              "harness, generator; malloc/realloc/memmove as allocate-copy-release and bitwise relocation; the element types are "
+              "trivially relocatable. The growth policy (3, 2s, max(2s,m), malloc below / realloc from 2048 bytes) is transcribed in "
+              "the model and compared through cap() after every operation; a harmless change of it is reported as VIOLATION ... "
+              "no-failing-input-found (the oracle ignores capacities). New cells of Array<int> after resize are unspecified in C++; the "
+              "harness writes them before reading. ASL_HAVE_MOVE is off in this build: the (leaking) move assignment "
+              "Array::operator=(Array&&) is not compiled and not covered.")
 
 # ---------------------------------------------------------------------------------------------- reference
 
@@ -152,6 +161,7 @@ class Ref:
                 body = "#%d" % h
             out.append("%d/%d/%s" % (n, self.rc(c), body))
         s = " ".join(out)
+        s += " | K" + ",".join("-" if c is None else str(c.cap) for c in self.H)
         if self.t == "c":
             live = sum(len(c.l) for c in set(x for x in self.H if x is not None))
             s += " | L%d" % live
@@ -189,6 +199,9 @@ class Ref:
             return "ok"
         if op == "newn":
             self.store(sl(a[0]), [dec(T, a[2])] * int(a[1]))
+            return "ok"
+        if op == "newp":
+            self.store(sl(a[0]), [dec(T, x) for x in a[1:]])
             return "ok"
         if op == "cp":
             h, g = sl(a[0]), sl(a[1])
@@ -341,6 +354,30 @@ class Ref:
         if op == "sortd":
             l.sort(reverse=True)
             return "ok"
+        if op == "sortby":
+            ks = [key(T, v) for v in l]
+            if len(set(ks)) != len(ks):
+                # ties between different elements: the result depends on the quicksort itself (not stable) - no opinion
+                if any(l[i] != l[j] for i in range(n) for j in range(i + 1, n) if ks[i] == ks[j]):
+                    self.poisoned = True
+            l.sort(key=lambda v: key(T, v), reverse=(int(a[1]) == 0))
+            return "ok"
+        if op == "iter":
+            return "ok"
+        if op == "copyp":
+            xs = [dec(T, x) for x in a[1:]]
+            if self.blocked(len(xs) > c.cap, shared):
+                return "skipg"
+            self.reserve(c, len(xs))
+            l[:] = xs
+            return "ok"
+        if op == "appp":
+            xs = [dec(T, x) for x in a[1:]]
+            if self.blocked(n + len(xs) > c.cap, shared):
+                return "skipg"
+            self.reserve(c, n + len(xs))
+            l.extend(xs)
+            return "ok"
         if op == "dup":
             if shared:
                 self.store(h, l)
@@ -485,7 +522,7 @@ BOUNDARY = {"i": [3, 6, 12, 24, 48, 96, 192, 384, 511, 512, 513, 768, 1024], "s"
             "c": [3, 6, 12, 24, 48, 96, 192, 255, 256, 257, 384, 512]}
 
 
-MAYGROW = ("app", "push", "put", "ins", "appo", "inso", "insx", "rsz", "res", "apnd", "copy")
+MAYGROW = ("app", "push", "put", "ins", "appo", "inso", "insx", "rsz", "res", "apnd", "copy", "copyp", "appp")
 
 
 def gen_case(rng, t, cont, nops, profile, exclusive=False):
@@ -556,8 +593,13 @@ def gen_case(rng, t, cont, nops, profile, exclusive=False):
             emit("res %d %d" % (h, rng.choice([n, n + 1, (c.cap if c else 3) + 1, 2 * n + 1, rng.randrange(3 * n + 8)])))
         elif w < 0.61:
             emit("clr %d" % h)
+        elif w < 0.635:
+            emit(rng.choice(["sort %d", "sortd %d", "sortby %d 1", "sortby %d 0"]) % h)
         elif w < 0.64:
-            emit(rng.choice(["sort %d", "sortd %d"]) % h)
+            k = rng.choice([0, 1, 2, 3, rng.randrange(9), (c.cap - n + 1) if c is not None else 4])
+            vs = " ".join(rval(rng, t) for _ in range(max(k, 0)))
+            o = rng.choice(["appp", "appp", "copyp", "newp", "iter"])
+            emit("iter %d" % h if o == "iter" else ("%s %d %s" % (o, h, vs)).strip())
         elif w < 0.67:
             emit("slice %d %d %d %d" % (rng.randrange(NS), h, rng.randrange(n + 1), rng.randrange(n + 1)))
         elif w < 0.70:
@@ -642,7 +684,7 @@ def gen(rng, tier):
 EXHAUSTIVE = {"quick": "all sequences of length <= 3 over the 9-op alphabet %s on Array<Counted>" % ALPHABET,
               "thorough": "all sequences of length <= 5 over the 9-op alphabet %s on Array<Counted> and Array<String>" % ALPHABET}
 
-GROW = ("app", "ins", "appo", "inso", "insx", "push", "put", "apnd")
+GROW = ("app", "ins", "appo", "inso", "insx", "push", "put", "apnd", "appp")
 MID = ("ins", "inso", "insx", "rem", "remone", "remif", "qget")
 
 
@@ -694,6 +736,12 @@ KNOWN = [{"key": "shared-growth",
           "case": ["ia reset", "ia new 0", "ia cp 1 0", "ia xapp 0 0", "ia xapp 0 1", "ia xapp 0 2", "ia xapp 0 3"]}]
 
 
+def _strip_caps(line):
+    """drop the ` | K...` section (capacities are not part of the property)"""
+    parts = line.split(" | ")
+    return " | ".join(x for x in parts if not x.startswith("K"))
+
+
 def oracle(case, impl, model, crash):
     """judge a divergence on the implementation alone: replay the history on the python reference following the
     implementation's own skip decisions (the growth policy is not part of the property)"""
@@ -718,6 +766,8 @@ def oracle(case, impl, model, crash):
             exp = None
         if exp is None:
             continue
+        exp = _strip_caps(exp)
+        o = _strip_caps(o)
         if exp != o:
             return True, "sequence semantics violated at `%s`: implementation `%s`, reference `%s`" % (l, o[:200], exp[:200])
     return False, ("the implementation keeps the sequence semantics on this history but its capacity decisions differ from the "
